@@ -10,7 +10,7 @@ theorem InvK.fireTimeout {db : DB} (ha : InvA db) (hk : InvK db) (hid : Nat) (hn
   simp only []
   split
   · obtain ⟨r2, h2, c1, c2⟩ := h0.rollback
-    have hk' := (h2.ctrMod (fun x => { x with timeoutedCount := x.timeoutedCount + 1 })).finishN (KR_dead' c1 c2) (fp_false_of_depth c1)
+    have hk' := (h2.ctrMod (fun x => { x with timeoutedCount := x.timeoutedCount + 1 })).finishD (KR_dead' c1 c2) c1
     exact InvK.wake ((ha0.rollback hid).ctrMod _) hk' _ _
   · rename_i hd
     have hd0 : (db.getR hid).depth = 0 := by omega
@@ -18,8 +18,8 @@ theorem InvK.fireTimeout {db : DB} (ha : InvA db) (hk : InvK db) (hid : Nat) (hn
     have hkr := hk.recs _ (findR_some_mem hpr).1
     dsimp only
     split
-    · exact ((h1.modKey (db.getR hid).cmd.key (fun k => { k with waited := false })).ctrMod _).finishN ⟨hkr.1, by intro h; simp only [] at h; omega⟩ (fp_false_of_depth hd0)
-    · exact (h1.ctrMod _).finishN ⟨hkr.1, by intro h; simp only [] at h; omega⟩ (fp_false_of_depth hd0)
+    · exact ((h1.modKey (db.getR hid).cmd.key (fun k => { k with waited := false })).ctrMod _).finishD ⟨hkr.1, by intro h; simp only [] at h; omega⟩ hd0
+    · exact (h1.ctrMod _).finishD ⟨hkr.1, by intro h; simp only [] at h; omega⟩ hd0
 
 theorem InvK.fireExpire {db : DB} (ha : InvA db) (hk : InvK db) (hid : Nat) (hne : (db.getR hid).expried = false) : InvK (fireExpire db hid).1 := by
   have hpr := present_of (Or.inr (Or.inr (Or.inr (Or.inl hne))))
@@ -30,13 +30,17 @@ theorem InvK.fireExpire {db : DB} (ha : InvA db) (hk : InvK db) (hid : Nat) (hne
   split
   · have h1 := hs.modR (fun r => { r with expT := db.now + 30 }) (by intro _; rfl)
     obtain ⟨r2, h2, c1, c2, c3⟩ := h1.addExpried
-    exact h2.finishN ⟨by rw [c2]; exact hkr.1, by intro _ hh; rw [c3] at hh; exact absurd hh (by decide)⟩ (fp_false_of_expried c3)
+    refine h2.finishN ⟨by rw [c2]; exact hkr.1, by intro _ hh; rw [c3] at hh; exact absurd hh (by decide)⟩ (fp_false_of_expried c3) ?_
+    intro hj
+    have hj' : jc db hid > 0 := hj
+    unfold Rec.pending; rw [c1, c2]
+    exact hk.kj hid hj'
   · have h1 := (hs.modR (fun r => { r with expried := true }) (by intro _; rfl)).modKey (db.getR hid).cmd.key
       (fun k => { k with locked := k.locked - (db.getR hid).depth })
     obtain ⟨r2, h2, _, _⟩ := h1.journalUnlock false
     obtain ⟨r3, h3, c1, c2⟩ := h2.removeLock
-    have hk' := (h3.ctrMod (fun x => { x with lockedCount := x.lockedCount - (db.getR hid).depth, expriedCount := x.expriedCount + 1 })).finishN
-      (KR_dead' c1 c2) (fp_false_of_depth c1)
+    have hk' := (h3.ctrMod (fun x => { x with lockedCount := x.lockedCount - (db.getR hid).depth, expriedCount := x.expriedCount + 1 })).finishD
+      (KR_dead' c1 c2) c1
     have ha' : InvA (((((db.modR hid (fun r => { r with expried := true })).modKey (db.getR hid).cmd.key (fun k => { k with locked := k.locked - (db.getR hid).depth })).journalUnlock hid false).removeLock hid).ctrMod
         (fun x => { x with lockedCount := x.lockedCount - (db.getR hid).depth, expriedCount := x.expriedCount + 1 })) := by
       apply InvA.ctrMod; apply InvA.removeLock; apply InvA.journalUnlock; apply InvA.modKey
@@ -98,12 +102,13 @@ theorem InvK.opTick {db : DB} (ha : InvA db) (hk : InvK db) : InvK (opTick db).1
 /-! ### journal delivery and reports -/
 
 theorem InvK.leaderPushLock {db : DB} (ha : InvA db) (hk : InvK db) (id hid : Nat)
-    (h0 : (db.getR hid).fp = true → jc db hid = 0 ∧ tc db hid = 0) : InvK (leaderPushLock db id hid).1 := by
+    (h0 : (db.getR hid).fp = true → jc db hid = 0 ∧ tc db hid = 0)
+    (he : (db.getR hid).pending = true → (db.getR hid).depth > 0 → (db.getR hid).expried = true) : InvK (leaderPushLock db id hid).1 := by
   unfold Slock.Ack.leaderPushLock
   split
-  · exact InvK.ackDone ha hk _ _
+  · exact InvK.ackDone ha hk _ _ he (by intro hh; cases hh)
   · split
-    · exact InvK.ackDone ha hk _ _
+    · exact InvK.ackDone ha hk _ _ he (by intro hh; cases hh)
     · simp only []
       cases e : findR db.recs hid with
       | none =>
@@ -124,7 +129,7 @@ theorem InvK.leaderPushLock {db : DB} (ha : InvA db) (hk : InvK db) (id hid : Na
           exact this _ e
         have hg : ∀ a, ({ db.modR hid (fun r => { r with ack := reqAcks db.cfg }) with
             tab := db.tab ++ [{ id := id, req := (db.getR hid).cmd.req, hid := hid }] } : DB).getR a = db.getR a := fun a => getR_frame hrec a
-        refine ⟨hk.cfg, by show ∀ r ∈ (db.modR hid _).recs, KR r; rw [hrec]; exact hk.recs, ?_, ?_⟩
+        refine ⟨hk.cfg, by show ∀ r ∈ (db.modR hid _).recs, KR r; rw [hrec]; exact hk.recs, ?_, ?_, ?_⟩
         · intro a hfp; rw [hg] at hfp
           have := hk.k2 a hfp
           have hne : a ≠ hid := by intro h; rw [h, hd, fp_dead] at hfp; exact absurd hfp (by decide)
@@ -138,6 +143,7 @@ theorem InvK.leaderPushLock {db : DB} (ha : InvA db) (hk : InvK db) (id hid : Na
           rcases List.mem_append.mp hx with hx | hx
           · exact hk.k1 x hx hfp
           · simp at hx; subst hx; simp only [] at hfp; rw [hd, fp_dead] at hfp; exact absurd hfp (by decide)
+        · intro a hj; rw [hg]; exact hk.kj a hj
       | some r =>
         have hg : db.getR hid = r := by rw [getR_eq, e]; rfl
         have hkr := hk.recs r (findR_some_mem e).1
@@ -147,7 +153,9 @@ theorem InvK.leaderPushLock {db : DB} (ha : InvA db) (hk : InvK db) (id hid : Na
           have hgg : ∀ a, ({ db.modR hid (fun r => { r with ack := reqAcks db.cfg }) with
             tab := db.tab ++ [{ id := id, req := (db.getR hid).cmd.req, hid := hid }] } : DB).getR a =
               (db.modR hid (fun r => { r with ack := reqAcks db.cfg })).getR a := fun a => getR_frame rfl a
-          refine ⟨h1.cfg, h1.nd, h1.fnd, h1.orec, ?_, ?_⟩
+          refine ⟨h1.cfg, h1.nd, h1.fnd, h1.orec, ?_, ?_, ?_⟩
+          rotate_left 2
+          · intro a hne hj; rw [hgg]; exact h1.oj a hne hj
           · intro a hne hfp; rw [hgg] at hfp
             have := h1.ok2 a hne hfp
             show jcL db.journal a + tcL (db.tab ++ [_]) a ≤ 1
@@ -165,7 +173,9 @@ theorem InvK.leaderPushLock {db : DB} (ha : InvA db) (hk : InvK db) (id hid : Na
           unfold Rec.fp at hh ⊢
           simp at hh ⊢
           exact ⟨hh.1, hkr.2 hh.1.1 hh.1.2⟩
-        refine h2.finish ⟨by simp only []; have := hk.cfg; omega, by intro _ _; unfold Rec.pending; simp only []; have := hk.cfg; simp; unfold NOACK at *; omega⟩ ?_ ?_
+        have hpn : ({ r with ack := reqAcks db.cfg } : Rec).pending = true := by
+          unfold Rec.pending; simp only []; have := hk.cfg; simp; unfold NOACK at *; omega
+        refine h2.finish ⟨by simp only []; have := hk.cfg; omega, fun _ _ => hpn⟩ ?_ ?_ (fun _ => Or.inr hpn)
         · intro hh
           have hz := h0 (by rw [hg]; exact hfp hh)
           show jcL db.journal hid + tcL (db.tab ++ [_]) hid ≤ 1
@@ -178,15 +188,34 @@ theorem InvK.leaderPushLock {db : DB} (ha : InvA db) (hk : InvK db) (id hid : Na
           · exact absurd hxe ((tcL_zero_iff _ _).mp hz.2 x hx)
           · simp at hx; subst hx; simp [cnt]
 
-theorem InvK.leaderPushUnLock {db : DB} (ha : InvA db) (hk : InvK db) (hid : Nat) : InvK (leaderPushUnLock db hid).1 := by
+theorem InvK.leaderPushUnLock {db : DB} (ha : InvA db) (hk : InvK db) (hid : Nat)
+    (he : (db.getR hid).pending = true → (db.getR hid).depth > 0 → (db.getR hid).expried = true) : InvK (leaderPushUnLock db hid).1 := by
   unfold Slock.Ack.leaderPushUnLock
   split
-  · rename_i e _; exact InvK.ackDone (ha.dropEnt e.id) (hk.dropEnt e.id) _ _
+  · rename_i e _; exact InvK.ackDone (ha.dropEnt e.id) (hk.dropEnt e.id) _ _ he (by intro hh; cases hh)
   · exact hk
 
 theorem InvK.popJ {db : DB} (hk : InvK db) (k : Nat) : InvK (popJ db k) := hk.sub rfl (List.Sublist.refl _) List.eraseP_sublist rfl
 
-theorem InvK.opPush {db : DB} (ha : InvA db) (hk : InvK db) (k : Nat) (werr : Bool) : InvK (opPush db k werr).1 := by
+theorem jc_pos_of_mem {db : DB} {j : JRec} {h : Nat} (hm : j ∈ db.journal) (hl : j.isLock = true) (hh : j.hid = some h) : jc db h > 0 := by
+  cases e : jc db h with
+  | zero => exact absurd hh ((jcL_zero_iff _ _).mp e j hm hl)
+  | succ n => omega
+
+theorem tc_pos_of_mem {db : DB} {e : Ent} (hm : e ∈ db.tab) : tc db e.hid > 0 := by
+  cases h : tc db e.hid with
+  | zero => exact absurd rfl ((tcL_zero_iff _ _).mp h e hm)
+  | succ n => omega
+
+/-- the LOCK record being delivered to a leader belongs to a lock that is dead or still waiting for it (`InvK.kj`): the guard of the balance -/
+theorem InvK.pushGuard {db : DB} (hk : InvK db) {j : JRec} {hid : Nat} (hm : j ∈ db.journal) (hl : j.isLock = true) (hh : j.hid = some hid) :
+    (db.getR hid).depth > 0 → (db.getR hid).pending = true := by
+  intro hd
+  rcases hk.kj hid (jc_pos_of_mem hm hl hh) with h | h
+  · omega
+  · exact h
+
+theorem InvK.opPush {db : DB} (ha : InvA db) (hk : InvK db) (hq : InvQ db) (k : Nat) (werr : Bool) : InvK (opPush db k werr).1 := by
   rw [opPush_eq]
   split
   · exact hk
@@ -194,19 +223,25 @@ theorem InvK.opPush {db : DB} (ha : InvA db) (hk : InvK db) (k : Nat) (werr : Bo
     have hjm : j ∈ db.journal := List.mem_of_find?_eq_some hj
     have ha1 := ha.popJ k
     have hk1 := hk.popJ k
+    have hq1 := hq.popJ k
     split
     · exact hk1
     · rename_i hid hh
       have hgr : ∀ a, (Slock.Ack.popJ db k).getR a = db.getR a := fun a => getR_frame rfl a
+      have hex : ((Slock.Ack.popJ db k).getR hid).pending = true → ((Slock.Ack.popJ db k).getR hid).depth > 0 → ((Slock.Ack.popJ db k).getR hid).expried = true :=
+        fun hp _ => expried_of_pending (hq1.getR hid) hp
       have h2 : InvA (if (Slock.Ack.popJ db k).leader = true then (if j.isLock = true then Slock.Ack.leaderPushLock (Slock.Ack.popJ db k) (Slock.Ack.popJ db k).nextId hid
             else Slock.Ack.leaderPushUnLock (Slock.Ack.popJ db k) hid) else (Slock.Ack.popJ db k, [])).1 ∧
           InvK (if (Slock.Ack.popJ db k).leader = true then (if j.isLock = true then Slock.Ack.leaderPushLock (Slock.Ack.popJ db k) (Slock.Ack.popJ db k).nextId hid
+            else Slock.Ack.leaderPushUnLock (Slock.Ack.popJ db k) hid) else (Slock.Ack.popJ db k, [])).1 ∧
+          InvQ (if (Slock.Ack.popJ db k).leader = true then (if j.isLock = true then Slock.Ack.leaderPushLock (Slock.Ack.popJ db k) (Slock.Ack.popJ db k).nextId hid
             else Slock.Ack.leaderPushUnLock (Slock.Ack.popJ db k) hid) else (Slock.Ack.popJ db k, [])).1 := by
         split
         · split
           · rename_i hil
             have hjr := ha.jrn j hjm hil hid hh
-            refine ⟨ha1.leaderPushLock _ _ hjr.1 (by rw [hgr]; exact hjr.2), InvK.leaderPushLock ha1 hk1 _ _ ?_⟩
+            refine ⟨ha1.leaderPushLock _ _ hjr.1 (by rw [hgr]; exact hjr.2), InvK.leaderPushLock ha1 hk1 _ _ ?_ hex,
+              (leaderPushLock_cons ((0, 0) : Rid) ha1 hq1 _ hid (fun _ hd => by rw [hgr] at hd ⊢; exact hk.pushGuard hjm hil hh hd)).1⟩
             intro hfp
             rw [hgr] at hfp
             have h2 := hk.k2 hid hfp
@@ -218,12 +253,12 @@ theorem InvK.opPush {db : DB} (ha : InvA db) (hk : InvK db) (k : Nat) (werr : Bo
             have e2 : tc (Slock.Ack.popJ db k) hid = tc db hid := rfl
             unfold jc at h2
             constructor <;> omega
-          · exact ⟨ha1.leaderPushUnLock _, InvK.leaderPushUnLock ha1 hk1 _⟩
-        · exact ⟨ha1, hk1⟩
+          · exact ⟨ha1.leaderPushUnLock _, InvK.leaderPushUnLock ha1 hk1 _ hex, (leaderPushUnLock_cons ((0, 0) : Rid) ha1 hq1 hid).1⟩
+        · exact ⟨ha1, hk1, hq1⟩
       dsimp only
       split
-      · exact InvK.ackDone h2.1 h2.2 _ _
-      · exact h2.2
+      · exact InvK.ackDone h2.1 h2.2.1 _ _ (fun hp _ => expried_of_pending (h2.2.2.getR hid) hp) (by intro hh; cases hh)
+      · exact h2.2.1
 
 /-- `noteOk` replaces the first entry with that id by one with one more positive report noted -/
 theorem noteOk_split {id : Nat} {who : Option Nat} {l : List Ent} {e : Ent} (h : l.find? (·.id == id) = some e) :
@@ -257,15 +292,16 @@ theorem tcL_noteOk {id : Nat} {who : Option Nat} {l : List Ent} (h : Nat) : tcL 
 theorem AtK.subTab {db db' : DB} {hid : Nat} {r : Rec} (h : AtK db hid r) (e1 : db'.recs = db.recs) (e2 : db'.tab.Sublist db.tab)
     (e3 : db'.journal = db.journal) (e4 : db'.cfg = db.cfg) : AtK db' hid r := by
   have hg : ∀ a, db'.getR a = db.getR a := fun a => getR_frame e1 a
-  refine ⟨by rw [e4]; exact h.cfg, by rw [e1]; exact h.nd, by rw [e1]; exact h.fnd, by rw [e1]; exact h.orec, ?_, ?_⟩
+  refine ⟨by rw [e4]; exact h.cfg, by rw [e1]; exact h.nd, by rw [e1]; exact h.fnd, by rw [e1]; exact h.orec, ?_, ?_, ?_⟩
   · intro a ha hfp; rw [hg] at hfp
     have := h.ok2 a ha hfp
     have h2 : tc db' a ≤ tc db a := tcL_sublist e2 a
     have h1 : jc db' a = jc db a := by unfold jc; rw [e3]
     omega
   · rw [e4]; intro x hx hne hfp; rw [hg] at hfp ⊢; exact h.ok1 x (e2.subset hx) hne hfp
+  · intro a ha hj; rw [jc_of_journal e3] at hj; rw [hg]; exact h.oj a ha hj
 
-theorem InvK.opReport {db : DB} (ha : InvA db) (hk : InvK db) (id : Nat) (who : Option Nat) (ok : Bool) : InvK (opReport db id who ok).1 := by
+theorem InvK.opReport {db : DB} (ha : InvA db) (hk : InvK db) (hq : InvQ db) (id : Nat) (who : Option Nat) (ok : Bool) : InvK (opReport db id who ok).1 := by
   unfold Slock.Ack.opReport
   split
   · exact hk
@@ -273,7 +309,7 @@ theorem InvK.opReport {db : DB} (ha : InvA db) (hk : InvK db) (id : Nat) (who : 
     have hem : e ∈ db.tab := List.mem_of_find?_eq_some he
     simp only []
     split
-    · exact InvK.ackDone (ha.dropEnt id) (hk.dropEnt id) _ _
+    · exact InvK.ackDone (ha.dropEnt id) (hk.dropEnt id) _ _ (fun hp _ => expried_of_pending ((hq.dropEnt id).getR e.hid) hp) (by intro hh; cases hh)
     · rename_i hc
       have hp : (db.getR e.hid).pending = true := by
         cases hh : (db.getR e.hid).pending with
@@ -296,7 +332,9 @@ theorem InvK.opReport {db : DB} (ha : InvA db) (hk : InvK db) (id : Nat) (who : 
             (db.modR e.hid (fun r => { r with ack := decU8 r.ack })).getR a := fun a => getR_frame rfl a
         have h2 : AtK ({ db.modR e.hid (fun r => { r with ack := decU8 r.ack }) with tab := noteOk id who (db.modR e.hid (fun r => { r with ack := decU8 r.ack })).tab } : DB)
             e.hid ({ (db.getR e.hid) with ack := decU8 (db.getR e.hid).ack } : Rec) := by
-          refine ⟨hs.cfg, hs.nd, hs.fnd, hs.orec, ?_, ?_⟩
+          refine ⟨hs.cfg, hs.nd, hs.fnd, hs.orec, ?_, ?_, ?_⟩
+          rotate_left 2
+          · intro a hne' hj; rw [hg]; exact hs.oj a hne' hj
           · intro a hne' hfp; rw [hg] at hfp
             have := hs.ok2 a hne' hfp
             show jcL db.journal a + tcL (noteOk id who db.tab) a ≤ 1
@@ -313,7 +351,7 @@ theorem InvK.opReport {db : DB} (ha : InvA db) (hk : InvK db) (id : Nat) (who : 
                 · rw [h, a3] at hne'; exact absurd rfl hne'
                 · exact List.mem_append_right _ (List.mem_cons_of_mem _ h)
             exact hs.ok1 x this hne' hfp
-        refine h2.finish ⟨by simp only []; rw [hdec]; have := hkr.1; omega, fun _ _ => hpend'⟩ ?_ ?_
+        refine h2.finish ⟨by simp only []; rw [hdec]; have := hkr.1; omega, fun _ _ => hpend'⟩ ?_ ?_ (fun _ => Or.inr hpend')
         · intro hf; rw [hfp'] at hf
           show jcL db.journal e.hid + tcL (noteOk id who db.tab) e.hid ≤ 1
           rw [tcL_noteOk]; exact hk.k2 e.hid hf
@@ -348,43 +386,62 @@ theorem InvK.opReport {db : DB} (ha : InvA db) (hk : InvK db) (id : Nat) (who : 
         · unfold Slock.Ack.applyAck; simp only []
           rename_i hb
           have h1 := h0.modR (fun r => { r with ack := NOACK, undo := none }) (by intro _; rfl)
-          refine h1.finishN ⟨Nat.le_refl _, ?_⟩ (fp_false_of_noack rfl)
-          intro hd hex
+          have hexq : (db.getR e.hid).expried = true := expried_of_pending (hq.getR e.hid) hp
           rw [h3.getR] at hb
-          simp only [] at hd hex hb
+          simp only [] at hb
           simp at hb
-          rcases hb with hb | hb
-          · rw [hb] at hex; exact absurd hex (by decide)
-          · omega
+          refine h1.finishN ⟨Nat.le_refl _, ?_⟩ (fp_false_of_noack rfl) ?_
+          · intro hd hex
+            simp only [] at hd hex
+            rcases hb with hb | hb
+            · rw [hb] at hex; exact absurd hex (by decide)
+            · omega
+          · intro _
+            rcases hb with hb | hb
+            · rw [hb] at hexq; exact absurd hexq (by decide)
+            · exact Or.inl hb
         · unfold Slock.Ack.applyAck; simp only []
           have h1 := h0.modR (fun r => { r with ack := NOACK, undo := none, expT := r.startT + r.cmd.expried + 1 }) (by intro _; rfl)
           obtain ⟨r2, h2, c1, c2, c3⟩ := h1.addExpried
-          exact h2.finishN ⟨by rw [c2]; exact Nat.le_refl _, by intro _ hh; rw [c3] at hh; exact absurd hh (by decide)⟩ (fp_false_of_expried c3)
+          rename_i hb
+          rw [h3.getR] at hb
+          simp only [] at hb
+          simp at hb
+          have hfp0 : (db.getR e.hid).fp = true := by unfold Rec.fp; simp [hp, hb.1]; omega
+          have hz : jc db e.hid = 0 := by have := hk.k2 e.hid hfp0; have := tc_pos_of_mem hem; omega
+          refine h2.finishN ⟨by rw [c2]; exact Nat.le_refl _, by intro _ hh; rw [c3] at hh; exact absurd hh (by decide)⟩ (fp_false_of_expried c3) ?_
+          intro hj
+          have hj' : jc db e.hid > 0 := hj
+          omega
 
-theorem InvK.opFailAll {db : DB} (ha : InvA db) (hk : InvK db) (order : List Nat) : InvK (opFailAll db order).1 := by
+theorem InvK.opFailAll {db : DB} (ha : InvA db) (hk : InvK db) (hq : InvQ db) (order : List Nat) : InvK (opFailAll db order).1 := by
   unfold Slock.Ack.opFailAll
   simp only []
-  have h1 := foldl_inv (fun acc : DB × List Reply => InvA acc.1 ∧ InvK acc.1) failStep (fun b a hb => by
-      unfold failStep; exact ⟨hb.1.ackDone a false, InvK.ackDone hb.1 hb.2 a false⟩)
-    (order.filterMap (fun id => (db.findId id).map (·.hid)) ++ (db.tab.filter (fun e => !order.contains e.id)).map (·.hid)) (db, []) ⟨ha, hk⟩
-  exact h1.2.sub rfl (List.nil_sublist _) (List.Sublist.refl _) rfl
+  have h1 := foldl_inv (fun acc : DB × List Reply => InvA acc.1 ∧ InvK acc.1 ∧ InvQ acc.1) failStep (fun b a hb => by
+      unfold failStep
+      exact ⟨hb.1.ackDone a false, InvK.ackDone hb.1 hb.2.1 a false (fun hp _ => expried_of_pending (hb.2.2.getR a) hp) (by intro hh; cases hh),
+        (ackDone_cons ((0, 0) : Rid) hb.1 hb.2.2 a false).1⟩)
+    (order.filterMap (fun id => (db.findId id).map (·.hid)) ++ (db.tab.filter (fun e => !order.contains e.id)).map (·.hid)) (db, []) ⟨ha, hk, hq⟩
+  exact h1.2.1.sub rfl (List.nil_sublist _) (List.Sublist.refl _) rfl
 
-theorem InvK.step {db : DB} (ha : InvA db) (hk : InvK db) (e : Ev) : InvK (step db e).1 := by
+theorem InvK.step {db : DB} (ha : InvA db) (hk : InvK db) (hq : InvQ db) (e : Ev) : InvK (step db e).1 := by
   cases e with
   | lock c => exact InvK.opLock ha hk c
   | unlock c => exact InvK.opUnlock ha hk c
   | tick => exact InvK.opTick ha hk
-  | push k => exact InvK.opPush ha hk k false
-  | pushW k => exact InvK.opPush ha hk k true
-  | aofed id ok => unfold Slock.Ack.step opAofed; simp only []; split; exact InvK.opReport ha hk _ _ _; exact hk
-  | acked id f ok => exact InvK.opReport ha hk _ _ _
+  | push k => exact InvK.opPush ha hk hq k false
+  | pushW k => exact InvK.opPush ha hk hq k true
+  | aofed id ok => unfold Slock.Ack.step opAofed; simp only []; split; exact InvK.opReport ha hk hq _ _ _; exact hk
+  | acked id f ok => exact InvK.opReport ha hk hq _ _ _
   | role b => exact hk.frame rfl rfl rfl rfl
   | closed b => exact hk.frame rfl rfl rfl rfl
-  | demote o => exact InvK.opFailAll ha hk o
-  | flush o => exact InvK.opFailAll ha hk o
+  | demote o => exact InvK.opFailAll ha hk hq o
+  | flush o => exact InvK.opFailAll ha hk hq o
 
 theorem InvK.init (cfg : Cfg) (now : Nat) (hc : reqAcks cfg < NOACK) : InvK (DB.init cfg now) := by
-  refine ⟨hc, ?_, ?_, ?_⟩
+  refine ⟨hc, ?_, ?_, ?_, ?_⟩
+  rotate_left 3
+  · intro h hj; simp [jc, jcL, DB.init] at hj
   · intro r hr; simp [DB.init] at hr
   · intro h hf
     have : (DB.init cfg now).getR h = deadRec h := rfl
